@@ -141,6 +141,12 @@ POS = {
     "like": lambda Q, v: Q.from_(_t()).select("a").where(_t().a.like(v)),
     "between": lambda Q, v: Q.from_(_t()).select("a").where(_t().a.between(v, 0)),
     "in_list": lambda Q, v: Q.from_(_t()).select("a").where(_t().a.isin([v, 0])),
+    # longer lists / rows (a renderer may treat lists above some length differently)
+    "in_list4": lambda Q, v: Q.from_(_t()).select("a").where(_t().a.isin([0, 1, v, 2, 3])),
+    "notin_list4": lambda Q, v: Q.from_(_t()).select("a").where(_t().a.notin([0, 1, 2, v])),
+    "tuple4": lambda Q, v: Q.from_(_t()).select("a").where(Tuple(_t().a, _t().b, _t().c, _t().d) == Tuple(0, 1, 2, v)),
+    "insert_row5": lambda Q, v: Q.into(_t()).insert(0, 1, 2, 3, v),
+    "join_on_collate": lambda Q, v: Q.from_(_t()).join(Table("u")).on((_t().id == Table("u").id) & (Table("u").x == v), collate="utf8_bin").select(_t().a),
     "insert_row": lambda Q, v: Q.into(_t()).insert(0, v),
     "insert_rows": lambda Q, v: Q.into(_t()).columns("a", "b").insert((0, 0), (v, 0)),
     "set": lambda Q, v: Q.update(_t()).set(_t().a, v),
